@@ -329,7 +329,10 @@ template <class AdF, class AdT> void cast_pair(const char* name, uint64_t seed, 
     if (t == 0) for (int i = 0; i < N; i++) c[i] = (F)(i + 1);                       // distinct integers per slot
     else if (t == 1) for (int i = 0; i < N; i++) c[i] = (F)(-(2 * i + 3));
     else for (int i = 0; i < N; i++) { F m = (F)(1.0L + (long double)(g() >> 11) / (long double)(1ULL << 53)); if (sizeof(F) > 8) m += (F)std::ldexp((long double)(g() & 1023), -63);
-        int e = (int)(g() % 40) - 20; c[i] = std::ldexp(m, e) * ((g() & 1) ? 1 : -1); }  // not representable in narrower types
+        int e = (int)(g() % 40) - 20;
+        // every fifth set: anywhere in the source type's normal range - beyond the destination's range a plain cast gives +-infinity, below it a subnormal or zero
+        if (t % 5 == 2 && !normalised) { const int lo = std::numeric_limits<F>::min_exponent + 2, hi = std::numeric_limits<F>::max_exponent - 2; e = lo + (int)(g() % (unsigned)(hi - lo + 1)); }
+        c[i] = std::ldexp(m, e) * ((g() & 1) ? 1 : -1); }  // not representable in narrower types
     QF src = AdF::make(c); F sc[9]; getc(src, sc);
     QT dst(src);                         // converting construction
     T dc[9]; getc(dst, dc);
